@@ -1,7 +1,8 @@
 # vlib/props.py — registry of property checks
 from .fam_df import C05
 from .fam_api import C01, C03, C04, C10, C11
+from .fam_esc import C19
 
 REGISTRY = {}
-for cls in (C05, C01, C03, C04, C10, C11):
+for cls in (C05, C01, C03, C04, C10, C11, C19):
     REGISTRY[cls.pid] = cls
